@@ -470,4 +470,271 @@ def ltagIndexFor (d : List Nat) (n : Nat) (tag : List Nat) : R (Option Nat) :=
   | .err e => .err e
   | .ok xs => .ok ((xs.find? (fun t => (d.drop t.2.1).take t.2.2 == tag)).map (·.1))
 
+/-! ## IFT (`tables/ift.rs`, feature `ift`) -/
+
+/-- `usize::saturating_mul` -/
+def satMul (a b : Nat) : Nat := if a * b ≤ MAXU then a * b else MAXU
+
+/-- `U8Or16::compute_size(max_entry_index)` -/
+def u8or16Size (mei : Nat) : Nat := if mei < 256 then 1 else 2
+
+/-- `U8Or16::read_with_args(data, max_entry_index)`: `read_at::<u8>(0)` / `read_at::<u16>(0)` -/
+def u8or16Read (d : List Nat) (mei : Nat) : Option Nat := readAt d 0 (u8or16Size mei)
+
+/-- inner `for j in 0..4 { data[i * 4 + j] = be_bytes[j]; }` of `CompatibilityId::from_u32s`;
+`none` = an index out of bounds (panic) -/
+def compatInner (be : List Nat) (i : Nat) : List Nat → List Nat → Option (List Nat)
+  | [], data => some data
+  | j :: js, data =>
+    match be[j]? with
+    | none => none
+    | some b => if i * 4 + j < data.length then compatInner be i js (data.set (i * 4 + j) b) else none
+
+/-- outer `for i in 0..4 { let be_bytes = values[i].to_be_bytes(); … }` -/
+def compatOuter (vals : List Nat) : List Nat → List Nat → Option (List Nat)
+  | [], data => some data
+  | i :: is, data =>
+    match vals[i]? with
+    | none => none
+    | some v =>
+      match compatInner (beBytes 4 v) i [0, 1, 2, 3] data with
+      | none => none
+      | some data' => compatOuter vals is data'
+
+/-- `CompatibilityId::from_u32s(values)`: the 16 bytes, `none` = panic -/
+def compatFromU32s (vals : List Nat) : Option (List Nat) :=
+  compatOuter vals [0, 1, 2, 3] (List.replicate 16 0)
+
+/-- the fields of a successfully read `PatchMapFormat1` the hand-written helpers use -/
+structure F1Hdr where
+  maxEntry : Nat
+  glyphCount : Nat
+  gmOff : Nat
+  fmOff : Nat
+  /-- the applied-entries bitmap is `bitmapLen` bytes at offset 36 -/
+  bitmapLen : Nat
+  /-- the URI template is `uriLen` bytes at offset `36 + bitmapLen + 2` -/
+  uriLen : Nat
+  deriving Repr, DecidableEq
+
+/-- `PatchMapFormat1::read` (generated): format + 3 reserved bytes, `field_flags` (`cursor.read()?`),
+compatibility id (16), `max_entry_index` (`cursor.read()?`), `max_glyph_map_entry_index`, `glyph_count`
+(u24), two 32-bit offsets, `max_value_bitmap_len(max_entry_index)` = `(mei + 1).div_ceil(8)` bitmap
+bytes, `uri_template_length` (`cursor.read()?`), the template, `patch_format`, the optional CFF / CFF2
+charstrings offsets (flag bits 0 / 1), `finish` -/
+def f1Read (d : List Nat) : Option F1Hdr :=
+  match readAt d 4 1 with
+  | none => none
+  | some flags =>
+    match readAt d 21 2 with
+    | none => none
+    | some mei =>
+      let bl := (mei + 1 + 7) / 8
+      match readAt d (36 + bl) 2 with
+      | none => none
+      | some ul =>
+        let e := 36 + bl + 2 + ul + 1 + (if flags % 2 = 1 then 4 else 0) + (if flags / 2 % 2 = 1 then 4 else 0)
+        if e ≤ d.length then
+          some { maxEntry := mei, glyphCount := beAt d 25 3, gmOff := beAt d 28 4, fmOff := beAt d 32 4,
+                 bitmapLen := bl, uriLen := ul }
+        else none
+
+/-- `PatchMapFormat1::entry_count`: `max_entry_index as u32 + 1`; `none` = `u32` overflow -/
+def f1EntryCount (h : F1Hdr) : Option Nat := if h.maxEntry + 1 ≤ 4294967295 then some (h.maxEntry + 1) else none
+
+/-- `PatchMapFormat1::uri_template_as_string().is_ok()` -/
+def f1UriOk (d : List Nat) (h : F1Hdr) : Bool := utf8Valid ((d.drop (36 + h.bitmapLen + 2)).take h.uriLen)
+
+/-- `PatchMapFormat1::is_entry_applied(entry_index)` = Model/PatchMapDecode.lean `isEntryApplied` on the
+bitmap bytes (`byte_index = entry_index / 8`, `1 << (entry_index % 8)`, `bitmap.get(byte_index)`) -/
+def f1IsEntryApplied (d : List Nat) (h : F1Hdr) (i : Nat) : Bool :=
+  PatchMap.isEntryApplied ((d.drop 36).take h.bitmapLen) i
+
+/-- a successfully read `GlyphMap`: `first_mapped_glyph`, item size and the bytes of `entry_index` -/
+structure GmView where
+  first : Nat
+  size : Nat
+  data : List Nat
+  deriving Repr, DecidableEq
+
+/-- `GlyphMap::read_with_args(data, (glyph_count, max_entry_index))`: `first_mapped_glyph`
+(`cursor.read()?`), `subtract(glyph_count, first)` (saturating) items of `U8Or16::compute_size` bytes -/
+def glyphMapRead (sub : List Nat) (glyphCount mei : Nat) : Except AErr GmView :=
+  match readAt sub 0 2 with
+  | none => .error .oob
+  | some first =>
+    match checkedMul (glyphCount - first) (u8or16Size mei) with
+    | none => .error .oob
+    | some bl =>
+      if 2 + bl ≤ sub.length then .ok { first := first, size := u8or16Size mei, data := (sub.drop 2).take bl }
+      else .error .oob
+
+/-- `PatchMapFormat1::glyph_map()` -/
+def f1GlyphMap (d : List Nat) (h : F1Hdr) : Except AErr GmView :=
+  match resolveOff d h.gmOff with
+  | .error e => .error e
+  | .ok sub => glyphMapRead sub h.glyphCount h.maxEntry
+
+/-- one call of `GidToEntryIter::next` under the `.filter(|(_, entry_index)| *entry_index > 0)` of
+`gid_to_entry_iter` (a zero entry = `continue`): `self.gid += 1` (`u32`), `cur_gid >= glyph_count` ends,
+`index = cur_gid as usize - first_mapped_glyph as usize` (unchecked), `entry_index().get(index).ok()`
+(`ComputedArray::get` = Model/HandRead.lean `compGet`, then `U8Or16::read_with_args`).  The state is
+`self.gid`. -/
+def gidStep (gm : Option GmView) (glyphCount : Nat) (gid : Nat) : Out (Nat × Nat) × Nat :=
+  match gm with
+  | none => (.done, gid)
+  | some gm =>
+    if gid + 1 > 4294967295 then (.trap, gid)
+    else if gid ≥ glyphCount then (.done, gid + 1)
+    else if gid < gm.first then (.trap, gid + 1)
+    else
+      match compGet gm.data.length gm.size (gid - gm.first) with
+      | none => (.done, gid + 1)
+      | some off =>
+        match readAt gm.data off gm.size with
+        | none => (.done, gid + 1)
+        | some e => if e > 0 then (.yield (gid, e), gid + 1) else (.cont, gid + 1)
+
+/-- `map.gid_to_entry_iter().collect()` -/
+def gidTrace (d : List Nat) (h : F1Hdr) : Option (List (Out (Nat × Nat))) :=
+  let gm := match f1GlyphMap d h with | .ok g => some g | .error _ => none
+  run (gidStep gm h.glyphCount) (h.glyphCount + 2) (match gm with | some g => g.first | none => 0)
+
+/-- `FeatureMap::read_with_args(data, max_entry_index)`: `feature_count` (`cursor.read()?`),
+`feature_count * FeatureRecord::compute_size` bytes of records (4 + 2·`U8Or16` size), the rest is the entry
+map data; `(feature_count, record size)` -/
+def featureMapRead (sub : List Nat) (mei : Nat) : Except AErr (Nat × Nat) :=
+  match readAt sub 0 2 with
+  | none => .error .oob
+  | some n =>
+    let recSize := 4 + 2 * u8or16Size mei
+    match checkedMul n recSize with
+    | none => .error .oob
+    | some bl => if 2 + bl ≤ sub.length then .ok (n, recSize) else .error .oob
+
+/-- `FeatureRecord::read_with_args(data, max_entry_index)` up to `entry_map_count`: tag (4 bytes,
+`cursor.read_be()?`) and two `U8Or16` (`cursor.read_with_args()?`) -/
+def featureRecordCount (rec_ : List Nat) (w : Nat) : Option Nat :=
+  match readAt rec_ 0 4, readAt rec_ 4 w, readAt rec_ (4 + w) w with
+  | some _, some _, some c => some c
+  | _, _, _ => none
+
+/-- the `for record in self.feature_records().iter()` loop of `FeatureMap::entry_records_size`:
+`ComputedArray::iter` (`item_len.checked_mul(i)?`, `data.split_off(item_start)?` — a `None` ENDS the
+iteration —, `Some(T::read_with_args(..))`), `record?`, and the unchecked
+`num_bytes += count as usize * field_width * 2` -/
+def ersLoop (recs : List Nat) (recSize w fw : Nat) : List Nat → Nat → R Nat
+  | [], acc => .ok acc
+  | i :: is, acc =>
+    match checkedMul recSize i with
+    | none => .ok acc
+    | some st =>
+      if st > recs.length then .ok acc else
+      match featureRecordCount (recs.drop st) w with
+      | none => .err .oob
+      | some c =>
+        if c * fw > MAXU ∨ c * fw * 2 > MAXU ∨ acc + c * fw * 2 > MAXU then .trap
+        else ersLoop recs recSize w fw is (acc + c * fw * 2)
+
+/-- `FeatureMap::entry_records_size(max_entry_index)` on the feature map `sub` that was read with
+`meiOwn`: the records are the `feature_count * record size` bytes behind the count,
+`ComputedArray::len = byte_len.checked_div(item_len).unwrap_or(0)` -/
+def entryRecordsSize (sub : List Nat) (meiOwn meiArg : Nat) : R Nat :=
+  match featureMapRead sub meiOwn with
+  | .error e => .err e
+  | .ok (n, recSize) =>
+    let recs := (sub.drop 2).take (n * recSize)
+    ersLoop recs recSize (u8or16Size meiOwn) (if meiArg < 256 then 1 else 2)
+      (List.range (compLen recs.length recSize)) 0
+
+/-- `PatchMapFormat1::feature_map()`: `Nullable<Offset32>` — `none` = no feature map -/
+def f1FeatureMap (d : List Nat) (h : F1Hdr) : Option (Except AErr (List Nat)) :=
+  match resolveOff d h.fmOff with
+  | .error .null => none
+  | .error e => some (.error e)
+  | .ok sub =>
+    match featureMapRead sub h.maxEntry with
+    | .error e => some (.error e)
+    | .ok _ => some (.ok sub)
+
+/-- the fields of a successfully read `GlyphPatches` -/
+structure GpHdr where
+  gc : Nat
+  tc : Nat
+  /-- glyph id width: 3 with `WIDE_GLYPH_IDS`, else 2 -/
+  w : Nat
+  idsAt : Nat
+  offsAt : Nat
+  /-- number of `glyph_data_offsets` -/
+  nOffs : Nat
+  deriving Repr, DecidableEq
+
+/-- `GlyphPatches::read_with_args(data, flags)` (generated): `glyph_count` (u32), `table_count` (u8),
+`glyph_count` ids of 2 / 3 bytes, `table_count` tags, `multiply_add(glyph_count, table_count, 1)`
+(saturating) 32-bit offsets -/
+def gpRead (d : List Nat) (wide : Bool) : Option GpHdr :=
+  match readAt d 0 4 with
+  | none => none
+  | some gc =>
+    match readAt d 4 1 with
+    | none => none
+    | some tc =>
+      let w := if wide then 3 else 2
+      match checkedMul gc w, checkedMul tc 4 with
+      | some idsLen, some tabLen =>
+        let nOffs := satAdd (satMul gc tc) 1
+        match checkedMul nOffs 4 with
+        | none => none
+        | some offLen =>
+          if 5 + idsLen + tabLen + offLen ≤ d.length then
+            some { gc := gc, tc := tc, w := w, idsAt := 5, offsAt := 5 + idsLen + tabLen, nOffs := nOffs }
+          else none
+      | _, _ => none
+
+/-- state of `GlyphDataIterator`: items consumed from the zipped offset iterator, `previous_gid`,
+`failed` -/
+structure GdSt where
+  k : Nat
+  prev : Option Nat
+  failed : Bool
+  deriving Repr, DecidableEq
+
+/-- `GlyphPatches::glyph_data_for_table(table_index)`: `start_index = table_index.saturating_mul(glyph_count)` -/
+def gdStartIndex (h : GpHdr) (ti : Nat) : Nat := satMul ti h.gc
+
+/-- one call of `GlyphDataIterator::next`.  The zipped iterator
+`glyph_ids().iter().take(glyph_count).zip(offsets.iter().skip(start_index).zip(offsets.iter().skip(start_index.saturating_add(1))))`
+yields its `k`-th item iff `k < glyph_count`, `start_index + k < offsets.len()` and
+`start_index.saturating_add(1) + k < offsets.len()`.  Items: `ok (gid, start, len)` = the glyph's data is
+`data[start .. start + len]`, or the error; after an error the iterator is finished. -/
+def gdStep (d : List Nat) (h : GpHdr) (si : Nat) (s : GdSt) : Out (Except AErr (Nat × Nat × Nat)) × GdSt :=
+  if s.failed then (.done, s)
+  else if s.k ≥ h.gc then (.done, s)
+  else if si + s.k ≥ h.nOffs ∨ satAdd si 1 + s.k ≥ h.nOffs then (.done, s)
+  else
+    match readAt d (h.offsAt + 4 * (si + s.k)) 4, readAt d (h.offsAt + 4 * (satAdd si 1 + s.k)) 4 with
+    | some st, some en =>
+      let s1 : GdSt := { s with k := s.k + 1 }
+      -- the glyph id item of `ComputedArray::iter`: `Err` when it does not fit
+      match readAt d (h.idsAt + h.w * s.k) h.w with
+      | none => (.yield (.error .oob), { s1 with failed := true })
+      | some gid =>
+        if (match s.prev with | some p => decide (gid ≤ p) | none => false) then
+          (.yield (.error .malformed), { s1 with failed := true })
+        else
+          let s2 : GdSt := { s1 with prev := some gid }
+          if en < st then (.yield (.error .malformed), { s2 with failed := true })
+          else
+            match resolveOff d st with
+            | .error e => (.yield (.error e), { s2 with failed := true })
+            | .ok data =>
+              if en - st ≤ data.length then (.yield (.ok (gid, st, en - st)), s2)
+              else (.yield (.error .oob), { s2 with failed := true })
+    -- the offsets are elements of the `glyph_data_offsets` slice: reading them cannot fail
+    | _, _ => (.trap, s)
+
+/-- `patches.glyph_data_for_table(table_index).collect()` -/
+def gdTrace (d : List Nat) (h : GpHdr) (ti : Nat) : Option (List (Out (Except AErr (Nat × Nat × Nat)))) :=
+  run (gdStep d h (gdStartIndex h ti)) (h.gc + 2) { k := 0, prev := none, failed := false }
+
 end FontVerif.HandAat
